@@ -1303,7 +1303,7 @@ example : decSeries.length = decBounds.length ∧ 2 ≤ decBounds.length ∧ dec
         pure (g == some f && u.map (·.1) == decBounds && f.rows.length == 7)
     | Option.none => pure false : Res Bool) true
 -- `unsliceInc_decreasing_loses`: the body on the decreasing list as it stands (before the fix) files all 7 rows under bound 8,
--- nothing under 2, and the re-stitched frame has 4 of the 7 rows (the real code before 1bf1f4a: the same numbers)
+-- nothing under 2, and the re-stitched frame has 4 of the 7 rows (the real code before e2719c8: the same numbers)
 #guard okEq (do
     let f ← stitch decSeries Option.none (some decBounds) (some ['(', ']']) 2
     match f with
